@@ -1,15 +1,15 @@
 SPECIFICATION VSpec
 CONSTANTS
   Accts = {"A1"}
-  BankNames = {"KB1", "KB2"}
+  BankNames = {"KB1", "KB2", "KB3"}
   Amounts = {1}
   Ticks = {1}
   LiqTriples <- NoTuples
   Prices <- NoTuples
   BkCases <- NoTuples
   MaxDepth = 4
-  KBanks = {"KB1", "KB2"}
-  KAmounts = {0, 1, 3, 1000, 900001}
+  KBanks = {"KB1", "KB2", "KB3"}
+  KAmounts = {0, 1, 3, 1000, 900001, 1255640255}
   KBorrowed = {0, 5, 2000000}
   KMaxDepth = 4
 VIEW VView
